@@ -632,6 +632,92 @@ def gen_interim_pipelined_cases():
     return out
 
 
+def gen_admission_cases():
+    """admission of connections: bursts of MHD_add_connection() queued while the daemon is not run (the daemon is
+    thread safe: externally added connections wait in the new-connections queue and are admitted, in FIFO order, by the
+    next MHD_run) against connection limits 1..3 — the quick check at MHD_add_connection() time passes, the firm check
+    under the lock refuses; quick-check refusals; per-IP limit; accept policy; epoll_ctl(ADD) failure in
+    new_connection_process_ (STARTED and CLOSED at once); stop with connections still queued.  Every connection object
+    must get both notifications or none."""
+    out = []
+    g = shape_get()
+    full = lambda c: send_line(c, g, 0, len(g.data))
+    for mode in ("select", "epoll"):
+        for limit in (1, 2, 3):
+            for extra in (0, 1, 2):
+                k = limit + extra
+                for kind in ("burst", "burst-busy", "burst-stop", "burst-stop-unrun", "trickle", "burst-post"):
+                    cs = Case("adm-%s-l%d-k%d-%s-%d" % (kind, limit, k, mode, len(out)))
+                    case_header(cs, mode, 8192, extra=" limit=%d" % limit)
+                    if kind == "burst-busy":
+                        cs.add("beh 0 0 f=s3")
+                    for c in range(k):
+                        cs.bodies[(c, 0)] = b""
+                        cs.bodies[(c, 1)] = b""
+                    if kind == "trickle":
+                        for c in range(k):
+                            cs.add("arrive %d %d" % (c, c + 1), full(c), "settle 4")
+                    else:
+                        if kind == "burst-busy":
+                            cs.add("arrive 0 1", full(0), "settle 1")
+                        for c in range(1 if kind == "burst-busy" else 0, k):
+                            cs.add("arrive %d %d" % (c, c + 1))
+                        if kind == "burst-stop-unrun":
+                            cs.add("stop")
+                        else:
+                            if kind == "burst-post":
+                                p = shape_post_cl(5)
+                                for c in range(k):
+                                    cs.bodies[(c, 0)] = p.body
+                                    cs.add(send_line(c, p, 0, len(p.data)))
+                            else:
+                                for c in range(1 if kind == "burst-busy" else 0, k):
+                                    cs.add(full(c))
+                            cs.add("settle 1" if kind == "burst-stop" else "settle 8")
+                    if kind in ("burst", "burst-busy", "trickle", "burst-post"):
+                        # a slot becomes free: the next arrival is admitted again; one more than fits is refused
+                        cs.add("cclose 0", "settle 4", "arrive %d %d" % (k, k + 1), "arrive %d %d" % (k + 1, k + 2),
+                               full(k), full(k + 1), "settle 8")
+                        cs.bodies[(k, 0)] = b""
+                        cs.bodies[(k + 1, 0)] = b""
+                    if kind != "burst-stop-unrun":
+                        cs.add("stop")
+                    cs.tags = ["admission-" + kind, mode]
+                    out.append(cs)
+        # per-IP limit and accept policy: refused before anything is allocated — no notification
+        for perip in (1, 2):
+            cs = Case("adm-perip%d-%s-%d" % (perip, mode, len(out)))
+            case_header(cs, mode, 8192, extra=" perip=%d apc=7 limit=4" % perip)
+            addrs = [1, 1, 1, 7, 2, 2, 3]
+            for c, a in enumerate(addrs):
+                cs.bodies[(c, 0)] = b""
+                cs.add("arrive %d %d" % (c, a))
+            for c in range(len(addrs)):
+                cs.add(full(c))
+            cs.add("settle 8", "cclose 0", "settle 4", "arrive 7 1", "arrive 8 1", "arrive 9 7", full(7), "settle 8", "stop")
+            for c in (7, 8, 9):
+                cs.bodies[(c, 0)] = b""
+            cs.tags = ["admission-perip", mode]
+            out.append(cs)
+    # epoll_ctl(EPOLL_CTL_ADD) fails for the j-th connection of a burst (after a first round: the first round of an
+    # epoll daemon with MHD_ALLOW_UPGRADE registers its upgrade epoll fd)
+    for limit in (0, 2, 3):
+        for j in range(3):
+            cs = Case("adm-epolladdfail-l%d-j%d-%d" % (limit, j, len(out)))
+            case_header(cs, "epoll", 8192, extra=(" limit=%d" % limit if limit else ""))
+            cs.add("settle 1", "fail-epoll-add %d" % j)
+            for c in range(3):
+                cs.bodies[(c, 0)] = b""
+                cs.add("arrive %d %d" % (c, c + 1))
+            for c in range(3):
+                cs.add(full(c))
+            cs.add("settle 8", "arrive 3 4", full(3), "settle 8", "stop")
+            cs.bodies[(3, 0)] = b""
+            cs.tags = ["admission-epolladdfail", "epoll"]
+            out.append(cs)
+    return out
+
+
 # --------------------------------------------------------------------------
 # log handling
 
@@ -762,6 +848,7 @@ class ProtocolOracle:
         self.bodies = bodies
         self.conn = {}       # c -> dict(state)
         self.errors = []
+        self.refused = set() # connections MHD_add_connection() refused: they must never be announced
         self.wire = {}       # c -> bytes the client received
         self.interims = {}   # c -> number of times the handler was asked again after an interim response
 
@@ -781,6 +868,10 @@ class ProtocolOracle:
                 if not self.f30:
                     return
             self.err("%s reported by the harness: %s" % (k, line[:160]))
+            return
+        if k == "arrive" and len(w) >= 4 and w[-2] == "->":
+            if w[-1] == "0":
+                self.refused.add(int(w[1].partition("=")[2]))
             return
         if k == "wire" and len(w) >= 3:
             c = int(w[1].partition("=")[2])
@@ -807,6 +898,8 @@ class ProtocolOracle:
             return
         s = self.conn.get(c)
         if k == "conn-start":
+            if c in self.refused:
+                self.err("start notification for connection %d although MHD_add_connection() refused it" % c)
             if s is not None:
                 self.err("second start notification for connection %d" % c)
             self.conn[c] = {"closed": False, "open": None, "nreq": 0}
@@ -941,7 +1034,7 @@ class Spec:
     props_module = "Mhd.Props.C05"
     lean_targets = ["Mhd.Props.C05", "drv_sm"]
     required_theorems = ["Mhd.C05.protocol_accepts", "Mhd.C05.protocol_complete", "Mhd.C05.aware_iff_open_request",
-                         "Mhd.C05.closed_only_unaware", "Mhd.C05.upgraded_holds_no_response", "Mhd.C05.idle_fuel_sufficient", "Mhd.C05.body_fuel_sufficient",
+                         "Mhd.C05.closed_only_unaware", "Mhd.C05.start_close_paired", "Mhd.C05.refused_silent", "Mhd.C05.upgraded_holds_no_response", "Mhd.C05.idle_fuel_sufficient", "Mhd.C05.body_fuel_sufficient",
                          "Mhd.C05.upload_accounting", "Mhd.C05.upload_complete_length", "Mhd.C05.early_response_discards_upload",
                          "Mhd.C05.protocol_accepts_fixed", "Mhd.C05.tree_f9_fixed",
                          "Mhd.C05.tree_other_repairs", "Mhd.C05.protocol_accepts_tree", "Mhd.C05.witness_f9",
@@ -1032,6 +1125,13 @@ class Spec:
                 stats["handler_calls"] += sum(1 for t in toks if t in ("first", "final") or t.startswith("up:"))
                 stats["interim_continuations"] += sum(1 for t in toks if t == "interim")
                 stats["upgrades"] += sum(1 for t in toks if t == "upgrade")
+            arr_ok = set(int(l.split()[1].partition("=")[2]) for l in hl if l.startswith("arrive ") and l.endswith("-> 1"))
+            started = set(c for c, toks in hp.items() if "start" in toks)
+            stats["adm_refused_at_add"] = stats.get("adm_refused_at_add", 0) + sum(1 for l in hl if l.startswith("arrive ") and l.endswith("-> 0"))
+            stats["adm_queued_never_announced"] = stats.get("adm_queued_never_announced", 0) + len(arr_ok - started)
+            stats["adm_start_and_close_at_once"] = stats.get("adm_start_and_close_at_once", 0) + \
+                sum(1 for c, toks in hp.items() if [t for t in toks if not t.startswith("sst")] == ["start", "close"])
+            stats["adm_announced"] = stats.get("adm_announced", 0) + len(started)
             stats["upgrade_responses_accepted"] += sum(1 for l in hl if l.startswith("queued ") and " code=101 -> 1" in l)
             stats["upgrades_closed_by_application"] += sum(1 for l in hl if l.startswith("up-close ") and l.endswith("-> 1"))
             stats["interim_responses_accepted"] += sum(1 for l in hl if l.startswith("queued ") and " code=102 -> 1" in l)
@@ -1068,6 +1168,8 @@ class Spec:
         nfault = len(cases) - ncorp
         cases += gen_outq_cases()
         noutq = len(cases) - ncorp - nfault
+        cases += gen_admission_cases()
+        nadm = len(cases) - ncorp - nfault - noutq
         cases += gen_interim_upgrade_cases()
         # finding F31 (repaired in /repo by ab938c0): the scripts always run and the NULL-extra oracle flag is always on, so that
         # a return of the defect is reported; the syntactic probe only goes into the evidence
@@ -1078,9 +1180,10 @@ class Spec:
         self.f30_run = f30_run
         if f30_run:
             cases += gen_interim_pipelined_cases()
-        niu = len(cases) - ncorp - nfault - noutq
+        niu = len(cases) - ncorp - nfault - noutq - nadm
+        nadm_only = nadm
         cases += gen_poolfull_cases(thorough)
-        npool = len(cases) - ncorp - nfault - noutq - niu
+        npool = len(cases) - ncorp - nfault - noutq - niu - nadm
         # bounded-exhaustive: one action at every placement x every handler behaviour, on every shape
         placements = []
         shapes = NORMAL_SHAPES + SMALL_SHAPES
@@ -1124,8 +1227,8 @@ class Spec:
                        "fragments and actions; plus fixed fault-injection scripts and scripts with MHD_queue_response outside the handler"
                        % (nplace_all, "each in both polling modes, with and without URI-log callback" if thorough else
                           "polling mode and URI-log registration alternate from point to point"),
-               "samples": [cases[ncorp + nfault + noutq + niu + npool].lines if len(cases) > ncorp + nfault + noutq + niu + npool else [], cases[-1].lines],
-               "placements": npl, "outside_handler_reply_scripts": noutq, "interim_upgrade_scripts": niu,
+               "samples": [cases[ncorp + nfault + noutq + nadm + niu + npool].lines if len(cases) > ncorp + nfault + noutq + nadm + niu + npool else [], cases[-1].lines],
+               "placements": npl, "outside_handler_reply_scripts": noutq, "interim_upgrade_scripts": niu, "admission_scripts (limits 1..3, bursts, per-IP, accept policy, epoll_ctl failure)": nadm_only,
                "interim_reply_with_pipelined_bytes (F30)": ("run (connection_shrink_read_buffer keeps an exactly sized buffer)" if f30_fixed else
                                                             "run although the tree lacks the repair (C05_F30=1)" if f30_run else
                                                             "NOT run: the tree lacks the F30 repair (pipelined bytes behind a request answered with a "
@@ -1135,6 +1238,10 @@ class Spec:
                "exhaustive_domain": "the placement grid (shape x phase x mid x action x handler behaviour); modes x URI-log fully only in the thorough tier",
                "outcomes": {"completion_codes": stats["codes"], "settled_states": stats["states"], "handler_call_tokens": stats["handler_calls"],
                             "oracle_rejects": stats["oracle_rejects"], "canonical_diffs": stats["diffs"],
+                            "admission": {"connections announced (STARTED … CLOSED)": stats.get("adm_announced", 0),
+                                          "refused by MHD_add_connection (limit quick check, per-IP, accept policy): no notification": stats.get("adm_refused_at_add", 0),
+                                          "queued, never announced (firm limit check, or daemon stopped first): no notification": stats.get("adm_queued_never_announced", 0),
+                                          "STARTED and CLOSED only (admission failed after STARTED, or closed unused)": stats.get("adm_start_and_close_at_once", 0)},
                             "interim_102": {"responses_accepted": stats["interim_responses_accepted"],
                                             "handler_asked_again_after_complete_interim_reply": stats["interim_continuations"]},
                             "upgrade_101": {"responses_accepted": stats["upgrade_responses_accepted"],
